@@ -19,6 +19,30 @@ from manifest_table import fill  # noqa
 
 fill(chk, NOT_YET)
 
+# additions of rounds e / f (appended to the coverage text of the table)
+ADDED = {
+    "C02": " Also: trees built by the prune-regraft pattern (one subtree grafted into two candidates, the other edited); forests of 258-330 clones.",
+    "C03": " Also: a history assembled from two separately built and relabelled parts with overlapping clone names; mixed-scale data; trees of 258-330 clones.",
+    "C05": " Also: cluster files that list mutations the loader drops (size = what the file lists); grids to 301.",
+    "C08": " Also: data points with outlier prior 0 (no prior term) under an outlier-proposing kernel.",
+    "C09": " Also: the order the real whole-tree and subtree samplers hand to their conditional SMC pass (replayed up to the start of the pass): uniform over the compatible orders of the tree of the pass.",
+    "C10": " Also: the same Tree object summarised three times (last answer examined); the call must leave the tree's digest unchanged; trees of 258-330 clones.",
+    "C11": " Also: traces of 700-1100 entries per chain with 270-330 distinct topologies; traces in which every record of one topology scores minus infinity.",
+    "C12": " Also: traces split exactly half and half between conflicting topologies (consensus must complete); trees of 258-330 clones.",
+    "C13": " Also: the value handed to sample() must be the concentration in force before the update; n up to 3e5.",
+    "C14": " Also: histories of 6000-20000 distinct argument lists with 2-4 children (eviction, re-request, cached pairwise results fed back, occasional clears).",
+    "C15": " Also: restored copies parked untouched and re-compared after later restorations; a dictionary must not change when the tree it was taken from is edited; all entries of a run trace restored before any is examined; histories on trees of 258-330 clones.",
+    "C16": " Also: pre-clustered traces (some with a cluster that has no data point) through C12's table oracle; traces of 270-400 entries.",
+    "C17": " Also: identifiers with parser-significant characters and names that spell missing-value tokens (NA, null, None ...); tables of 270-330 mutations.",
+    "C18": " Also: run seeds 0 and 2^32+5.",
+    "C19": " Also: loss-probability options (assigned with / without chrom column, user column, low / high values), print frequency, 300 iterations or particles on tiny inputs, 300 subtree-only iterations over shallow data at concentration 20 / 100.",
+    "C20": " Also: the complete file is read successfully at the very path that is then cut short; a prefix counts as complete only if it decompresses independently to the whole pickled content.",
+    "C06": " Histories also start from trees of 258-330 clones.",
+    "C07": " Histories also start from trees of 258-330 clones.",
+}
+for _pid, _txt in ADDED.items():
+    CHECKS[_pid]["text"] += _txt
+
 man = {
     "version": 1,
     "setup_cmd": "/venv/bin/python -m pip install -q --no-index --find-links /opt/veriftools/wheels --target /verif/.deps icontract deal jsonschema",
